@@ -683,7 +683,8 @@ def _get_compound_components(
         ctx.schema, mc = c.material_type(ctx.schema)
         if mc not in mat_components:
             mat_components.append(mc)
-    mat_components.sort(key=lambda c: c.id)
+    # (A component can itself be a compound type, whose own id is random.)
+    mat_components.sort(key=lambda c: _get_object_type_id(c, ctx=ctx))
     return tuple(mat_components)
 
 
@@ -704,7 +705,9 @@ def _get_object_type_id(
     )
     return uuidgen.uuid5(
         s_obj.TYPE_ID_NAMESPACE,
-        f'compound\x00{int(op)}\x00{":".join(str(c.id) for c in components)}',
+        f'compound\x00{int(op)}\x00' + ":".join(
+            str(_get_object_type_id(c, ctx=ctx)) for c in components
+        ),
     )
 
 
